@@ -962,6 +962,23 @@ def register_funs(out, tree, misc_tree):
         return lean_outcome(o, "plain")
     out.define("resetOr", "(acc reset offset width : Int)", "Int", build_reset, "0")
 
+    # ---- get_reset_value: WHICH bit-fields contribute (all of `_bitfields`, hidden ones included - not the filtered `get_bitfields()`)
+    def build_reset_iter():
+        cls = cls_node(tree, "Register")
+        fn = method(cls, "get_reset_value")
+        loops = [s for s, _, _ in walk_stmts(fn.body) if isinstance(s, ast.For)]
+        if len(loops) != 1:
+            raise Untr("loop form")
+        it = loops[0].iter
+        self_calls = [n for n in ast.walk(it) if isinstance(n, ast.Call) and callee(n.func).startswith("self.")]
+        direct = [n for n in ast.walk(it) if isinstance(n, ast.Attribute) and callee(n) == "self._bitfields"]
+        if direct and not self_calls:
+            return "true"
+        if self_calls:
+            return "false"
+        raise Untr("iteration source")
+    out.define("resetIterAll", "", "Bool", build_reset_iter, "false")
+
 
 def gen_RegArith() -> None:
     out = Out()
